@@ -42,6 +42,11 @@ def gen_cases(ctx):
                                            client_strategy=None if n is None else dict(
                                                attempts=n, codes='one', excs=excs, backoff=dict(family='periodic', interval=0)))
     yield from gen_threads(ctx)
+    for calls in (2, 3):
+        for outcomes in itertools.product(('ok', 'exc'), repeat=calls):
+            for tk in (['full'], ['logging', 'full'], ['full', 'logging', 'chain'], ['instance', 'logging']):
+                for shared in (True, False):
+                    yield dict(part='overlap', calls=calls, outcomes=list(outcomes), tracer_kinds=tk, shared_ctx=shared)
 
 
 def viol(rec, cfg, choices, sig, expected, observed):
@@ -205,7 +210,72 @@ def run_threads_case(cfg, rec):
     return (sched, inter)
 
 
+def run_overlap_case(cfg, rec):
+    """E4: two or three calls of one asynchronous client in flight at the same time (asyncio.gather) that carry the SAME caller-supplied
+    trace context, every order in which the transport answers them; each attempt still gets its begin and its completion"""
+    import asyncio
+    import json as _json
+    from types import SimpleNamespace
+    from mc.harness.client import make_client
+    from mc.vloop import VLoop
+    n = cfg['calls']
+    sched = 0
+
+    def once(env):
+        tlog = []
+        tracers = [cr.TRACER_KINDS[k](i, tlog) for i, k in enumerate(cfg['tracer_kinds'])]
+
+        async def responder(text, is_notif, kw):
+            doc = _json.loads(text)
+            i = doc['params'][0]
+            await asyncio.get_running_loop().gate(('answer', i))
+            if cfg['outcomes'][i] == 'exc':
+                raise cr.E1('call %d' % i)
+            return _json.dumps(dict(jsonrpc='2.0', id=doc['id'], result=i))
+        client = make_client('async', responder, tracers=tracers)
+        shared = SimpleNamespace(tag='shared') if cfg['shared_ctx'] else None
+
+        async def one(i):
+            try:
+                return ('ok', await client.call('m', i, _trace_ctx=shared))
+            except Exception as e:   # noqa
+                return ('exc', type(e).__name__)
+
+        async def go():
+            return await asyncio.gather(*[one(i) for i in range(n)])
+        loop = VLoop()
+        try:
+            out = loop.run(go(), choose=lambda labels: env.choose(('gate', tuple(sorted(labels))), len(labels)))
+        finally:
+            loop.close()
+        return out, tlog
+    for choices, (out, tlog) in explore_choices(once, max_exec=50000):
+        sched += 1
+        rec.transitions += len(tlog) + 1
+        c = dict(cfg=cfg, choices=list(choices))
+        vis = [t for t, k in enumerate(cfg['tracer_kinds']) if k != 'logging']
+        for i in range(n):
+            comp = 'end' if cfg['outcomes'][i] == 'ok' else 'error'
+            want_out = ('ok', i) if cfg['outcomes'][i] == 'ok' else ('exc', 'E1')
+            if tuple(out[i]) != want_out:
+                rec.violation('C19:overlap:a call made while another call is in flight did not get its own outcome', dict(c, call=i), expected=want_out, observed=out[i])
+                break
+            mine = [(idx, what) for idx, what, tctx, req, payload in tlog if list(req.params)[0] == i]
+            want = [(t, 'begin') for t in vis] + [(t, comp) for t in vis]
+            if mine != want:
+                rec.violation('C19:overlap:begin and completion counts differ for attempts in flight at the same time%s' % (
+                    ' (shared trace context)' if cfg['shared_ctx'] else ''), dict(c, call=i), expected=want, observed=mine)
+                break
+    rec.traces += sched
+    rec.states += sched
+    rec.nontrivial_n += sched
+    rec.counters['overlap schedules'] += sched
+    return sched
+
+
 def run_case(cfg, rec):
+    if cfg.get('part') == 'overlap':
+        return run_overlap_case(cfg, rec)
     if cfg.get('part') == 'threads':
         return run_threads_case(cfg, rec)
     leaves = 0
@@ -249,6 +319,10 @@ def replay(doc):
     from mc.core import Env, Recorder, jdump
     rec = Recorder()
     cfg, choices = doc['case']['cfg'], doc['case']['choices']
+    if cfg.get('part') == 'overlap':
+        run_overlap_case(cfg, rec)
+        print('replayed (all completion orders of the configuration): %d violation(s)' % len(rec.violations))
+        return 1 if rec.violations else 0
     if cfg.get('part') == 'threads':
         cfg = dict(cfg, shard=(0, 1, 1), outcomes=tuple(cfg['outcomes']))
         run_threads_case(cfg, rec)
